@@ -190,7 +190,7 @@ def run_tlc(module, cfg_body, tag, workers=8, timeout=1800, env=None, collect_pr
     if heap:
         cmd.append("-Xmx" + heap)
     cmd += ["-XX:+UseParallelGC", "-cp", "%s:%s" % (TLC_JAR, "/opt/veriftools/tla/CommunityModules-deps.jar"),
-            "tlc2.TLC", "-workers", str(workers), "-metadir", meta, "-cleanup", "-noGenerateSpecTE",
+            "tlc2.TLC", "-workers", str(workers), "-metadir", meta, "-cleanup", "-noGenerateSpecTE", "-checkpoint", "0",
             "-config", cfg]
     if coverage:
         cmd += ["-coverage", "1"]
